@@ -883,3 +883,13 @@ func withUseReference(oracle func(line, out string) string) func(line, out strin
 		return ""
 	}
 }
+
+// rule addenda (rounds 9-12): what the evidence says about the coverage of a run
+func init() {
+	if p := registry["C03"]; p != nil {
+		p.Rule += " Every 6th use case runs a second time as user (packets through the connection's reader goroutine); large-package histories."
+	}
+	if p := registry["C11"]; p != nil {
+		p.Rule += " One case in eight with 3..17 hooks of each kind; hooks are registered in one call from a list the harness overwrites afterwards; every 6th case a second time through the connection's reader goroutine."
+	}
+}
